@@ -840,3 +840,19 @@ Proof.
     + right; right. rewrite R1. left. exact RT.
     + apply IH.
 Qed.
+
+(* ------------------------------------------------------------------ C15: the wait for a human pull-off *)
+(* the loop `while self._start_time == inf: sleep(0.01)` ends only when the line has left infinity
+   (or the modelled run was cut): there is no time-out, however long the human takes *)
+Lemma poll_pull_off_exit : forall fuel w,
+  let w' := poll_pull_off fuel w in
+  w_fuel_out w' = true \/ Qltb (w_horizon w') (w_now w') = true \/
+  match regr_of (w_rhythm w') with Some g => r_start g <> None | None => True end.
+Proof.
+  induction fuel as [|f IH]; intros w; cbn [poll_pull_off].
+  - left. reflexivity.
+  - destruct (Qltb (w_horizon w) (w_now w)) eqn:H; [right; left; exact H|].
+    destruct (regr_of (w_rhythm w)) as [g|] eqn:R; [|right; right; now rewrite R].
+    destruct (r_start g) eqn:S; [right; right; rewrite R, S; discriminate|].
+    apply IH.
+Qed.
